@@ -16,14 +16,16 @@ def parseLives (s : String) : Option (List (Ending × List Attempt) × Bool) :=
   (s.splitOn ";").foldlM (fun (acc : List (Ending × List Attempt) × Bool) life =>
     match life.splitOn ":" with
     | [e, a] => do
-      let ending ← (if e == "drop" then some Ending.drop else if e == "graceful" then some Ending.graceful
+      -- `dropstop`: the connection is lost, connections are refused, and the application calls Stop while the manager
+      -- retries: for the model a loss that no attempt follows (Stop must return, Run must return)
+      let ending ← (if e == "drop" || e == "dropstop" then some Ending.drop else if e == "graceful" then some Ending.graceful
                     else if e == "wfail" then some Ending.wfail else none)
       let toks := if a.isEmpty then [] else a.splitOn ","
       let parsed ← toks.mapM parseAtt
       -- a refusal window contributes one transient to the model (at least one dial is refused); the attempt and
       -- wait counts are then not compared
       let atts := parsed.map fun | some x => x | none => Attempt.transient
-      pure (acc.1 ++ [(ending, atts)], acc.2 || parsed.any Option.isNone)
+      pure (acc.1 ++ [(ending, atts)], acc.2 || parsed.any Option.isNone || e == "dropstop")
     | _ => none) ([], false)
 
 def kvs (s : String) : List (String × String) :=
